@@ -109,12 +109,18 @@ func (e CBC) Decrypt(key interface{}, ciphertextEl *etree.Element) ([]byte, erro
 		return nil, err
 	}
 
-	if len(ciphertext) < block.BlockSize() {
+	// The cipher value is the IV followed by at least one block (the last block
+	// always carries padding), all of the cipher's block size.
+	blockSize := block.BlockSize()
+	if len(ciphertext) < 2*blockSize {
 		return nil, errors.New("ciphertext too short")
 	}
+	if len(ciphertext)%blockSize != 0 {
+		return nil, errors.New("ciphertext is not a multiple of the block size")
+	}
 
-	iv := ciphertext[:aes.BlockSize]
-	ciphertext = ciphertext[aes.BlockSize:]
+	iv := ciphertext[:blockSize]
+	ciphertext = ciphertext[blockSize:]
 
 	mode := cipher.NewCBCDecrypter(block, iv)
 	plaintext := make([]byte, len(ciphertext))
